@@ -400,7 +400,7 @@ def build_c(ast, unit, registry):
             if by_name:
                 # every bound local still exists under its recorded name and type: bind by name (locals may have been inserted or reordered)
                 tf.local_alias = {k: rec[k - 1][0] for k in used}
-            elif [t for n, t in rec] != [t for n, t in shape]:
+            elif [t for n, t in rec] != [t for n, t in shape][:len(rec)]:      # (locals declared after the recorded ones do not disturb positions)
                 raise LowerError('%s: the local declarations changed (%s, recorded %s): the bindings $Lk are no longer meaningful' % (tf.cname, shape, rec))
     tcontract = ghost_requires(unit, tf) + subst(expand_ghost(ucontract, unit, tf.cname), tf)
     if callee_ghosts:
